@@ -30,7 +30,7 @@ ASSUMPTIONS = [
     "chain targets are the quadrature cell masses of C01 (tolerance 1e-8 relative + 1e-12)",
 ]
 REQUIRED_COUNTERS = ["laws_measured", "batch_elements_compared", "history_replays", "zero_probability_states_watched",
-                     "table_words_classes"]
+                     "table_words_classes", "infinite_variation_copula_chains"]
 MIN_NONTRIVIAL = {"quick": 80, "thorough": 600}
 SHARD_TIMEOUT = {"quick": 900, "thorough": 7200}
 TOP = 1e-12
@@ -113,10 +113,8 @@ def gen_cases(tier, seed):
         dim = 3 if j % 4 == 3 else 2
         kind = ["clayton", "independent", "clayton", "dependent"][j % 4]
         cm = W.gen_copula_model_spec(rng, dim=dim, kind=kind)
+        W.limit_variation(rng, cm, allow_infinite=(dim == 2 and j % 4 == 2))
         for ms in cm["margins"]:
-            if ms["family"] == "CGMY" and ms["params"]["y"] >= 1.0:
-                ms["params"]["y"] = W.r6(rng.uniform(0.05, 0.95))
-                ms["branch"] = "0<y<1"
             if ms["family"] == "MERTON":
                 ms["params"]["mu_j"] = min(ms["params"]["mu_j"], 0.05)
                 ms["params"]["sigma_j"] = max(ms["params"]["sigma_j"], 0.08)
@@ -331,6 +329,8 @@ def _run_chain(case, R):
     rng = np.random.default_rng(case["seed"])
     try:
         model, grid, g = C.build_grid_and_model(mspec, case["grid"], lev)
+        if "margins" in mspec and not model.jump_of_finite_variation():
+            R.hit("infinite_variation_copula_chains")
     except (G.OutsideDomain, ValueError) as exc:
         R.skip("outside-domain: " + type(exc).__name__)
         return
